@@ -1188,11 +1188,13 @@ package connect
 //@   requires cc != nil && cc.duplexCall != nil && cc.duplexCall.requestBodyReader != nil && cc.responseTrailer != nil && cc.responseHeader != nil
 //@   requires cc.unmarshaler.envelopeReader.reader != nil && !pooled(cc.unmarshaler.envelopeReader.reader) && termerr(cc.unmarshaler.envelopeReader.reader) != errSpecialEnvelope && cc.unmarshaler.envelopeReader.bufferPool != nil && cc.unmarshaler.envelopeReader.codec != nil
 //@   assigns everything
-//@   ensures callres("(*connectStreamingUnmarshaler).Unmarshal", 1) == nil ==> err == nil                // label: a-decoded-message-is-delivered
-//@   ensures err != nil && Is(err, io.EOF) ==> Is(callres("(*connectStreamingUnmarshaler).Unmarshal", 1), errSpecialEnvelope) || (err == cc.unmarshaler.endStreamErr && (callres("(*connectStreamingUnmarshaler).Unmarshal", 1) == errSpecialEnvelope || old(cc.unmarshaler.endStreamErr) != nil))   // label: clean-end-only-after-the-end-of-stream-envelope
-//@   ensures err != nil ==> coded(err)                                                                  // label: errors-are-coded
+//@   ensures old(cc.receiveErr) == nil && callres("(*connectStreamingUnmarshaler).Unmarshal", 1) == nil ==> err == nil                // label: a-decoded-message-is-delivered
+//@   ensures old(cc.receiveErr) == nil && err != nil && Is(err, io.EOF) ==> Is(callres("(*connectStreamingUnmarshaler).Unmarshal", 1), errSpecialEnvelope) || (err == cc.unmarshaler.endStreamErr && (callres("(*connectStreamingUnmarshaler).Unmarshal", 1) == errSpecialEnvelope || old(cc.unmarshaler.endStreamErr) != nil))   // label: clean-end-only-after-the-end-of-stream-envelope
+//@   ensures old(cc.receiveErr) == nil && err != nil ==> coded(err)                                                                  // label: errors-are-coded
 //@   assert@call(mergeHeaders#1): arg0 == cc.responseTrailer && arg1 == callres("(*connectStreamingUnmarshaler).Trailer", 1)   // label: end-of-stream-metadata-joins-the-response-trailers   // tags: C11, C02
 //@   ensures called("(*connectStreamingUnmarshaler).EndStreamError", 1) && callres("(*connectStreamingUnmarshaler).EndStreamError", 1) != nil ==> err == callres("(*connectStreamingUnmarshaler).EndStreamError", 1) && (let e := callres("(*connectStreamingUnmarshaler).EndStreamError", 1) in e.meta != nil && (forall k seq :: {mapval(e.meta, k)} rawvals(e.meta, k) == rawvals(cc.responseHeader, k) ++ rawvals(cc.responseTrailer, k)))   // label: the-server's-error-carries-response-headers-then-trailers-as-metadata   // tags: C11, C02
+//@   ensures old(cc.receiveErr) != nil ==> err == old(cc.receiveErr) && cc.receiveErr == old(cc.receiveErr) && !called("(*connectStreamingUnmarshaler).Unmarshal", 1) && !called("mergeHeaders", 1)   // label: after-the-end-(or-a-failure)-the-same-error-is-returned-and-the-end-of-stream-metadata-is-not-merged-again   // tags: C11, C04
+//@   ensures err != nil ==> cc.receiveErr == err   // label: the-first-error-is-latched   // tags: C11, C04
 
 // ---------------------------------------------------------------------------
 // C06: every *Error built while decoding a response has a non-zero code
